@@ -44,7 +44,7 @@ let show_path p = String.concat " " (string_of_int (List.length p) :: List.map s
 let show_paths ps = String.concat " " (string_of_int (List.length ps) :: List.map show_path ps)
 let show_bool b = if b then "1" else "0"
 
-let main_loop (handle : toks -> string) =
+let main_loop (handle : toks -> String.t) =
   try
     while true do
       let l = input_line stdin in
